@@ -16,7 +16,8 @@ MOD = 'sim.scen_c15'
 RETYPE_VALUES = [None, True, 0, -1, 7, 10 ** 6, 10 ** 30, 1.5, '', 'x', [], {}, [1],
                  {'a': 1}, 'l1\nl2 <br>\n"q\'&amp;',
                  'C:\\dir \\emph{x} \\1 \\g<0> %s {0} $&',
-                 float('inf'), float('nan'), '5', False, [[]], -0.0]
+                 float('inf'), float('nan'), '5', False, [[]], -0.0,
+                 'cut \ud83d', '\udc00x']      # unpaired surrogates
 
 GARBAGE = [
     b'', b' \n\t ', b'null', b'[]', b'42', b'"matches"', b'{}',
